@@ -6,6 +6,8 @@ mod merge;
 mod backup;
 mod copy;
 mod paths;
+mod walk;
+mod gi;
 
 fn main() {
     let args: Vec<String> = std::env::args().collect();
@@ -50,6 +52,14 @@ fn main() {
                 let line = line.unwrap();
                 writeln!(out, "{}", paths::paths_line(&line)).unwrap();
             }
+        }
+        "gitignore" => {
+            out.flush().unwrap();
+            gi::gi_main(&args[2]);
+        }
+        "walk" => {
+            out.flush().unwrap();
+            walk::walk_main(&args[2..]);
         }
         "copy" => {
             out.flush().unwrap();
